@@ -148,7 +148,7 @@ func circuitMode(args []string) int {
 		if err != nil || hxlib.Hex(got) != hxlib.Hex(want[:]) || hxlib.Hex(refOut) != hxlib.Hex(want[:]) {
 			failK(o, "c18-circuit-not-sha256-xor", map[string]any{"case": k, "a": hxlib.Hex(a[:]), "b": hxlib.Hex(b[:]),
 				"compute": res, "ref": hxlib.Hex(refOut), "want": hxlib.Hex(want[:]),
-				"rerun": fmt.Sprintf("c18 circuit -seed %d -n %d -only %d", cf.Seed, cf.N, k)})
+				"rerun": fmt.Sprintf("go run -tags verif ./cmd/c18 circuit -repo %s -seed %d -n %d -only %d", repo, cf.Seed, cf.N, k)})
 		}
 	}
 	return 0
